@@ -90,6 +90,13 @@ def _flag_live(ck: Check, prog: Program, roles) -> None:
                                    f'`{norm(st)}`: the option is stored and never consulted, so it cannot have any effect '
                                    f'(e.g. switching concurrent batch execution off changes nothing)')
     ck.require('FLAG-LIVE', 'constructor options', n, 10)
+    # ... and every option a dispatcher constructor accepts on behalf of its base class reaches it
+    from .common import ctor_forwarding
+    for r in roles:
+        fwd, probs = ctor_forwarding(prog, r.cls)
+        ck.ob('FLAG-LIVE', f'{r.cls.name}.__init__ hands {len(fwd)} options to the base constructor, none is dropped', not probs, sample={'forwarded': fwd})
+        for line, msg in probs:
+            ck.finding('FLAG-LIVE', r.cls.qualname + '.__init__', msg[:70], r.cls.module.rel, line, msg)
 
 
 DETACHING = {'asyncio.ensure_future', 'asyncio.create_task', 'asyncio.get_event_loop.create_task', 'asyncio.get_running_loop.create_task',
